@@ -291,7 +291,9 @@ def run(ctx):
                 ctx.ob("C19.D1.unit-nonhermitian", tag, ok,
                        "returned quaternion vector is not (u + j w mapped back) divided by its Frobenius norm", where=f_nh.where,
                        construct="nonhermitian returned vector", loc=f_nh.loc(), detail=short(first_diff(q, want)))
-                if herm_late:
+                if herm_late and calls["herm"] > 1:
+                    # only when the code consults the Hermitian test again after the fast path (the answer cannot change for an
+                    # unmodified A, so code that does not ask again is equally right)
                     l = SC.lift(lam)
                     ctx.ob("C19.D2.hermitian-real", tag, l is not None and l.im.is_zero(),
                            "input tested Hermitian but the returned eigenvalue has a non-literal-zero imaginary part",
@@ -301,7 +303,7 @@ def run(ctx):
     ctx.require_instances("C19.D2.rayleigh", 2 * K)
     ctx.require_instances("C19.D1.unit-complex", 2)
     ctx.require_instances("C19.D1.unit-nonhermitian", 4)
-    ctx.require_instances("C19.D2.hermitian-real", 4)
+    ctx.require_instances("C19.D2.hermitian-real", 2)
 
 
 def _sym_complex(name, shape):
